@@ -622,7 +622,11 @@ func buildResponse(sc *Scenario, v *BackendView) *builtResponse {
 			sort.Strings(keys)
 			for _, k := range keys {
 				for _, val := range st[k] {
-					sb.WriteString(strings.ToLower(k) + ": " + val + "\r\n")
+					sep := ": "
+					if b.CompactTrailers {
+						sep = ":" // the space after the colon is optional
+					}
+					sb.WriteString(strings.ToLower(k) + sep + val + "\r\n")
 				}
 			}
 			tp, tf := []byte(sb.String()), byte(0x80)
@@ -799,8 +803,14 @@ func writeResponse(sc *Scenario, resp *builtResponse, w http.ResponseWriter) {
 		}
 	}
 	declared := b.TrailerStyle != "prefixed"
+	var announced []string
 	if len(resp.Trailer) > 0 && declared {
+		keys := make([]string, 0, len(resp.Trailer))
 		for k := range resp.Trailer {
+			keys = append(keys, k)
+		}
+		sort.Strings(keys)
+		for _, k := range keys {
 			// field names are case-insensitive, in the Trailer announcement too
 			switch b.TrailerCase {
 			case "lower":
@@ -810,7 +820,15 @@ func writeResponse(sc *Scenario, resp *builtResponse, w http.ResponseWriter) {
 			case "upper":
 				k = strings.ToUpper(k)
 			}
-			h.Add("Trailer", k)
+			announced = append(announced, k)
+		}
+		if b.TrailerOneLine {
+			// one field line listing all names (RFC 9110 list syntax), instead of one line per name
+			h.Add("Trailer", strings.Join(announced, ", "))
+		} else {
+			for _, k := range announced {
+				h.Add("Trailer", k)
+			}
 		}
 	}
 	if resp.CL != nil {
@@ -882,6 +900,12 @@ func writeResponse(sc *Scenario, resp *builtResponse, w http.ResponseWriter) {
 		key := k
 		if !declared {
 			key = http.TrailerPrefix + k
+			if b.TrailerCase == "lower" && !strings.HasPrefix(k, "Grpc-") {
+				// application metadata as grpc-go's handler writes it: the key goes into the map as spelled (lower
+				// case), not canonicalised; the protocol's own status keys keep their canonical spelling
+				h[http.TrailerPrefix+strings.ToLower(k)] = append(h[http.TrailerPrefix+strings.ToLower(k)], vals...)
+				continue
+			}
 		}
 		for _, val := range vals {
 			h.Add(key, val)
